@@ -220,20 +220,41 @@ func bz(x *big.Int) string {
 	if x.BitLen() <= 62 {
 		return vh.BigZ(x)
 	}
-	b := new(big.Int).Abs(x).Bytes()
-	for len(b)%4 != 0 {
-		b = append([]byte{0}, b...)
-	}
-	limbs := make([]string, 0, len(b)/4)
-	for i := 0; i < len(b); i += 4 {
-		limbs = append(limbs, fmt.Sprint(uint32(b[i])<<24|uint32(b[i+1])<<16|uint32(b[i+2])<<8|uint32(b[i+3])))
-	}
+	limbs := limbs56(new(big.Int).Abs(x).Bytes())
 	t := "(zl [" + strings.Join(limbs, ";") + "]%N)"
 	if x.Sign() < 0 {
 		return "(Z.opp " + t + ")"
 	}
 	return t
 }
+
+// big-endian base-2^56 limbs of a byte string
+func limbs56(b []byte) []string {
+	for len(b)%7 != 0 {
+		b = append([]byte{0}, b...)
+	}
+	limbs := make([]string, 0, len(b)/7)
+	for i := 0; i < len(b); i += 7 {
+		var v uint64
+		for j := 0; j < 7; j++ {
+			v = v<<8 | uint64(b[i+j])
+		}
+		limbs = append(limbs, fmt.Sprint(v))
+	}
+	return limbs
+}
+
+// cb prints a byte string as (bl len limbs)
+func cb(b []byte) string {
+	if len(b) == 0 {
+		return "(@nil N)"
+	}
+	if len(b) <= 8 {
+		return vh.Bytes(b)
+	}
+	return fmt.Sprintf("(bl %d%%nat [%s]%%N)", len(b), strings.Join(limbs56(b), ";"))
+}
+
 func optZ(x *big.Int) string {
 	if x == nil {
 		return "None"
@@ -259,7 +280,7 @@ type obs struct {
 func (o obs) coq() string {
 	switch o.kind {
 	case "bytes":
-		return vh.App("OBytes", vh.Bytes(o.b))
+		return vh.App("OBytes", cb(o.b))
 	case "err":
 		return "OErr"
 	case "panic":
@@ -303,19 +324,104 @@ func observeErr(f func() error) obs {
 }
 
 // ---------------------------------------------------------------- correspondence cases
+// byte-string specification, expanded identically by bs_eval in the model
+type spec struct {
+	T    string `json:"t"` // lit | ref | gen | xor | drop | app
+	Hex  string `json:"hex,omitempty"`
+	Ref  int    `json:"ref,omitempty"`
+	Seed uint64 `json:"seed,omitempty"`
+	Len  int    `json:"len,omitempty"`
+	Pos  int    `json:"pos,omitempty"`
+	Mask int    `json:"mask,omitempty"`
+	S    *spec  `json:"s,omitempty"`
+	S2   *spec  `json:"s2,omitempty"`
+}
+
+func lit(b []byte) *spec             { return &spec{T: "lit", Hex: vh.Hex(b)} }
+func ref(i int) *spec                { return &spec{T: "ref", Ref: i} }
+func bgen(seed uint64, n int) *spec  { return &spec{T: "gen", Seed: seed & 0x7fffffff, Len: n} }
+func (s *spec) xor(pos, m int) *spec { return &spec{T: "xor", S: s, Pos: pos, Mask: m} }
+func (s *spec) drop(n int) *spec     { return &spec{T: "drop", S: s, Len: n} }
+func app(a, b *spec) *spec           { return &spec{T: "app", S: a, S2: b} }
+
+func (s *spec) eval(env [][]byte) []byte {
+	if s == nil {
+		return nil
+	}
+	switch s.T {
+	case "lit":
+		return vh.UnHex(s.Hex)
+	case "ref":
+		if s.Ref < len(env) {
+			return append([]byte{}, env[s.Ref]...)
+		}
+		return nil
+	case "gen":
+		x := s.Seed
+		b := make([]byte, s.Len)
+		for i := range b {
+			x = (x*1103515245 + 12345) & 0x7fffffff
+			b[i] = byte(x >> 16)
+		}
+		return b
+	case "xor":
+		b := s.S.eval(env)
+		if s.Pos < len(b) {
+			b[s.Pos] ^= byte(s.Mask)
+		}
+		return b
+	case "drop":
+		b := s.S.eval(env)
+		if s.Len >= len(b) {
+			return []byte{}
+		}
+		return b[s.Len:]
+	case "app":
+		return append(s.S.eval(env), s.S2.eval(env)...)
+	}
+	panic("bad spec " + s.T)
+}
+
+func (s *spec) coq() string {
+	if s == nil {
+		return "(BLit (@nil N))"
+	}
+	switch s.T {
+	case "lit":
+		return vh.App("BLit", cb(vh.UnHex(s.Hex)))
+	case "ref":
+		return vh.App("BRef", vh.Nat(s.Ref))
+	case "gen":
+		return vh.App("BGen", vh.N(s.Seed), vh.Nat(s.Len))
+	case "xor":
+		return vh.App("BXor", s.S.coq(), vh.Nat(s.Pos), vh.NI(s.Mask))
+	case "drop":
+		return vh.App("BDrop", s.S.coq(), vh.Nat(s.Len))
+	case "app":
+		return vh.App("BApp", s.S.coq(), s.S2.coq())
+	}
+	panic("bad spec " + s.T)
+}
+
+type opJ struct {
+	Op    string `json:"op"`
+	Hash  int    `json:"hash,omitempty"`
+	A     *spec  `json:"a,omitempty"`
+	B     *spec  `json:"b,omitempty"`
+	Check bool   `json:"check,omitempty"`
+}
+
 type input struct {
-	Kind   string `json:"kind"` // big | pub | priv | oracle | malformed
-	Op     string `json:"op"`
-	Key    keyJ   `json:"key"`
-	Hash   int    `json:"hash,omitempty"`
-	A      string `json:"a,omitempty"` // hex
-	B      string `json:"b,omitempty"`
-	Check  bool   `json:"check,omitempty"`
-	X      string `json:"x,omitempty"` // decimal
-	Y      string `json:"y,omitempty"`
-	M      string `json:"m,omitempty"`
-	Seed   uint64 `json:"seed,omitempty"`
-	Expect string `json:"expect,omitempty"` // optional: what the oracle expects (documentation)
+	Kind   string   `json:"kind"` // big | pubgroup | privgroup | oracle | malformed
+	Op     string   `json:"op,omitempty"`
+	Key    keyJ     `json:"key"`
+	Env    []string `json:"env,omitempty"` // hex literals referenced by the ops
+	Ops    []opJ    `json:"ops,omitempty"`
+	X      string   `json:"x,omitempty"` // decimal (kind big)
+	Y      string   `json:"y,omitempty"`
+	M      string   `json:"m,omitempty"`
+	Seed   uint64   `json:"seed,omitempty"`
+	Expect string   `json:"expect,omitempty"`
 }
 
 func bigCase(c *vh.Ctx, in input) {
@@ -367,37 +473,6 @@ func init() {
 	}
 }
 
-func pubCase(c *vh.Ctx, in input) obs {
-	pub := in.Key.pub()
-	a, b := vh.UnHex(in.A), vh.UnHex(in.B)
-	var o obs
-	var term string
-	switch in.Op {
-	case "checkpub":
-		o = observeErr(func() error { return zrsa.VerifCheckPub(pub) })
-		term = "PCheckPub"
-	case "encrypt":
-		o = observe(func() ([]byte, error) { return zrsa.VerifEncrypt(pub, a) })
-		term = vh.App("PEncrypt", vh.Bytes(a))
-	case "em":
-		o = observe(func() ([]byte, error) { return zrsa.VerifConstructEM(pub, crypto.Hash(in.Hash), a) })
-		term = vh.App("PConstructEM", vh.NI(in.Hash), vh.Bytes(a))
-	case "verify15":
-		o = observeErr(func() error { return zrsa.VerifyPKCS1v15(pub, crypto.Hash(in.Hash), a, b) })
-		term = vh.App("PVerify15", vh.NI(in.Hash), vh.Bytes(a), vh.Bytes(b))
-	case "encrypt15":
-		// a = random stream, b = message
-		o = observe(func() ([]byte, error) { return zrsa.EncryptPKCS1v15(&finite{buf: a}, pub, b) })
-		term = vh.App("PEncrypt15", vh.Bytes(a), vh.Bytes(b))
-	default:
-		panic(in.Op)
-	}
-	nk := fmt.Sprintf("%s|%s|%s|%d|%s|%s", in.Op, in.Key.N, in.Key.E, in.Hash, in.A, in.B)
-	c.Case("pubcase", vh.Pair(coqPub(in.Key), term, o.coq()), in, nk)
-	c.Stat("pub."+in.Op+"."+o.kind, 1)
-	return o
-}
-
 // finite random source: io.ReadFull fails when it runs dry
 type finite struct{ buf []byte }
 
@@ -410,46 +485,124 @@ func (f *finite) Read(p []byte) (int, error) {
 	return n, nil
 }
 
-func privCase(c *vh.Ctx, in input) obs {
+// one group = one key, literal environment, operations
+type group struct {
+	c     *vh.Ctx
+	in    input
+	env   [][]byte
+	pub   *zrsa.PublicKey
+	priv  *zrsa.PrivateKey
+	terms []string
+}
+
+func newPubGroup(c *vh.Ctx, k keyJ) *group {
+	return &group{c: c, in: input{Kind: "pubgroup", Key: keyJ{N: k.N, E: k.E}}, pub: k.pub()}
+}
+func newPrivGroup(c *vh.Ctx, k keyJ) *group {
+	return &group{c: c, in: input{Kind: "privgroup", Key: k}, priv: k.priv()}
+}
+
+// lit adds a literal to the environment and returns a reference to it
+func (g *group) lit(b []byte) *spec {
+	g.env = append(g.env, append([]byte{}, b...))
+	g.in.Env = append(g.in.Env, vh.Hex(b))
+	return ref(len(g.env) - 1)
+}
+
+func (g *group) add(op opJ) obs {
 	var o obs
-	var term, keyTerm string
-	a := vh.UnHex(in.A)
-	if in.Op == "precompute" {
-		k := in.Key
-		k.Precompute = false
-		p := k.priv()
-		keyTerm = coqPriv(p)
-		func() {
-			defer func() {
-				if recover() != nil {
-					o = obs{kind: "panic"}
-				}
-			}()
-			p.Precompute()
-			o = obs{kind: "big", big: []*big.Int{p.Precomputed.Dp, p.Precomputed.Dq, p.Precomputed.Qinv}}
-		}()
-		term = "VPrecompute"
+	var term string
+	a, b := op.A.eval(g.env), op.B.eval(g.env)
+	if g.pub != nil {
+		pub := g.pub
+		switch op.Op {
+		case "checkpub":
+			o = observeErr(func() error { return zrsa.VerifCheckPub(pub) })
+			term = "PCheckPub"
+		case "encrypt":
+			o = observe(func() ([]byte, error) { return zrsa.VerifEncrypt(pub, a) })
+			term = vh.App("PEncrypt", op.A.coq())
+		case "em":
+			o = observe(func() ([]byte, error) { return zrsa.VerifConstructEM(pub, crypto.Hash(op.Hash), a) })
+			term = vh.App("PConstructEM", vh.NI(op.Hash), op.A.coq())
+		case "verify15":
+			o = observeErr(func() error { return zrsa.VerifyPKCS1v15(pub, crypto.Hash(op.Hash), a, b) })
+			term = vh.App("PVerify15", vh.NI(op.Hash), op.A.coq(), op.B.coq())
+		case "encrypt15": // a = random stream, b = message
+			o = observe(func() ([]byte, error) { return zrsa.EncryptPKCS1v15(&finite{buf: a}, pub, b) })
+			term = vh.App("PEncrypt15", op.A.coq(), op.B.coq())
+		default:
+			panic(op.Op)
+		}
+		g.c.Stat("pub."+op.Op+"."+o.kind, 1)
 	} else {
-		p := in.Key.priv()
-		keyTerm = coqPriv(p)
-		switch in.Op {
+		p := g.priv
+		switch op.Op {
 		case "decrypt":
-			o = observe(func() ([]byte, error) { return zrsa.VerifDecrypt(p, a, in.Check) })
-			term = vh.App("VDecrypt", vh.Bytes(a), vh.Bool(in.Check))
+			o = observe(func() ([]byte, error) { return zrsa.VerifDecrypt(p, a, op.Check) })
+			term = vh.App("VDecrypt", op.A.coq(), vh.Bool(op.Check))
 		case "sign15":
-			o = observe(func() ([]byte, error) { return zrsa.SignPKCS1v15(nil, p, crypto.Hash(in.Hash), a) })
-			term = vh.App("VSign15", vh.NI(in.Hash), vh.Bytes(a))
+			o = observe(func() ([]byte, error) { return zrsa.SignPKCS1v15(nil, p, crypto.Hash(op.Hash), a) })
+			term = vh.App("VSign15", vh.NI(op.Hash), op.A.coq())
 		case "decrypt15":
 			o = observe(func() ([]byte, error) { return zrsa.DecryptPKCS1v15(nil, p, a) })
-			term = vh.App("VDecrypt15", vh.Bytes(a))
+			term = vh.App("VDecrypt15", op.A.coq())
+		case "precompute":
+			func() {
+				defer func() {
+					if recover() != nil {
+						o = obs{kind: "panic"}
+					}
+				}()
+				q := *p
+				q.Primes = append([]*big.Int{}, p.Primes...)
+				q.Precompute()
+				o = obs{kind: "big", big: []*big.Int{q.Precomputed.Dp, q.Precomputed.Dq, q.Precomputed.Qinv}}
+			}()
+			term = "VPrecompute"
 		default:
-			panic(in.Op)
+			panic(op.Op)
 		}
+		g.c.Stat("priv."+op.Op+"."+o.kind, 1)
 	}
-	nk := fmt.Sprintf("%s|%s|%s|%v|%d|%s|%v", in.Op, in.Key.N, in.Key.Dp, in.Key.Precompute, in.Hash, in.A, in.Check)
-	c.Case("privcase", vh.Pair(keyTerm, term, o.coq()), in, nk)
-	c.Stat("priv."+in.Op+"."+o.kind, 1)
+	// every eighth long output is compared byte by byte, the others by length and checksum
+	full := len(g.terms)%8 == 0
+	g.terms = append(g.terms, vh.Pair(term, o.coqSum(full)))
+	g.in.Ops = append(g.in.Ops, op)
+	g.c.Stat("ops", 1)
 	return o
+}
+
+func (g *group) flush() {
+	if len(g.terms) == 0 {
+		return
+	}
+	envs := make([]string, len(g.env))
+	for i, e := range g.env {
+		envs[i] = cb(e)
+	}
+	js, _ := json.Marshal(g.in)
+	if g.pub != nil {
+		g.c.Case("pubcase", vh.Pair(coqPub(g.in.Key), vh.List0(envs, "bytes"), vh.List0(g.terms, "(pubop * obs)")), g.in, string(js))
+	} else {
+		g.c.Case("privcase", vh.Pair(coqPriv(g.priv), vh.List0(envs, "bytes"), vh.List0(g.terms, "(privop * obs)")), g.in, string(js))
+	}
+	g.terms, g.in.Ops = nil, nil
+}
+
+func bsum(b []byte) uint64 {
+	h := uint64(7)
+	for _, x := range b {
+		h = (h*31 + uint64(x) + 1) & 0x7fffffff
+	}
+	return h
+}
+
+func (o obs) coqSum(full bool) string {
+	if o.kind == "bytes" && len(o.b) > 8 && !full {
+		return vh.App("OSum", vh.NI(len(o.b)), vh.N(bsum(o.b)))
+	}
+	return o.coq()
 }
 
 // ---------------------------------------------------------------- generators
@@ -547,133 +700,169 @@ func genPub(c *vh.Ctx) {
 		bits, np int
 		e        string
 	}
-	shapes := []shape{{512, 2, "65537"}, {768, 2, "3"}, {1024, 2, "65537"}, {1024, 3, "r40"}, {520, 2, "big"}, {1016, 2, "r31"}}
+	shapes := []shape{{512, 2, "65537"}, {768, 2, "3"}, {1024, 2, "65537"}, {1024, 3, "r40"}, {520, 2, "big"}, {1016, 2, "r31"}, {2048, 2, "65537"}}
 	if c.Thorough {
-		shapes = append(shapes, shape{1024, 2, "big"}, shape{2048, 2, "65537"}, shape{777, 3, "3"}, shape{1024, 4, "r31"}, shape{640, 2, "huge"},
-			shape{2048, 2, "big"}, shape{1536, 3, "65537"})
+		shapes = append(shapes, shape{1024, 2, "big"}, shape{777, 3, "3"}, shape{1024, 4, "r31"}, shape{640, 2, "huge"},
+			shape{2048, 2, "big"}, shape{1536, 3, "65537"}, shape{3072, 2, "65537"}, shape{4096, 2, "3"}, shape{1024, 2, "huge"})
 	}
+	reps := 1
+	if c.Thorough {
+		reps = 3
+	}
+	seed := func() uint64 { return r.U64() & 0x7fffffff }
 	var good keyJ
-	for si, sh := range shapes {
-		k := genKey(r, sh.bits, sh.np, sh.e)
-		kp := k
-		kp.Precompute = true
-		if si == 0 {
-			good = k
-		}
-		priv := kp.priv()
-		n := sBig(k.N)
-		ksz := (n.BitLen() + 7) / 8
-		pk := keyJ{N: k.N, E: k.E}
-		pubCase(c, input{Kind: "pub", Op: "checkpub", Key: pk})
-		// raw encrypt: below N, at/above N, short, leading zeros, longer than k
-		m := bigRand(r, n)
-		pts := [][]byte{m.Bytes(), n.Bytes(), new(big.Int).Sub(n, one).Bytes(), new(big.Int).Add(n, one).Bytes(), {}, {0}, {1}, {0, 0, 2},
-			append(make([]byte, 5), m.Bytes()...), append([]byte{1}, make([]byte, ksz)...)}
-		for _, pt := range pts {
-			pubCase(c, input{Kind: "pub", Op: "encrypt", Key: pk, A: vh.Hex(pt)})
-		}
-		// EM construction: every crypto.Hash code, right and wrong digest length
-		for h := 0; h <= 21; h++ {
-			if hh, ok := hashOf[h]; ok {
-				pubCase(c, input{Kind: "pub", Op: "em", Key: pk, Hash: h, A: vh.Hex(r.Bytes(hh.Size()))})
-				if si < 2 {
-					pubCase(c, input{Kind: "pub", Op: "em", Key: pk, Hash: h, A: vh.Hex(r.Bytes(hh.Size() + 1 - 2*r.Intn(2)))})
+	for rep := 0; rep < reps; rep++ {
+		for si, sh := range shapes {
+			k := genKey(r, sh.bits, sh.np, sh.e)
+			kp := k
+			kp.Precompute = true
+			if good.N == "" {
+				good = k
+			}
+			priv := kp.priv()
+			n := sBig(k.N)
+			ksz := (n.BitLen() + 7) / 8
+			g := newPubGroup(c, k)
+			g.add(opJ{Op: "checkpub"})
+			// raw encrypt: below N, at/above N, short, leading zeros, longer than k
+			m := bigRand(r, n)
+			for _, pt := range [][]byte{n.Bytes(), new(big.Int).Sub(n, one).Bytes(), new(big.Int).Add(n, one).Bytes(), m.Bytes()} {
+				g.add(opJ{Op: "encrypt", A: g.lit(pt)})
+			}
+			for _, s := range []*spec{lit(nil), lit([]byte{0}), lit([]byte{1}), lit([]byte{0, 0, 2}), app(lit(make([]byte, 5)), ref(3)),
+				app(lit([]byte{1}), bgen(seed(), ksz)), bgen(seed(), ksz-1), bgen(seed(), ksz-1), bgen(seed(), ksz/2), app(lit([]byte{0}), bgen(seed(), ksz-1))} {
+				g.add(opJ{Op: "encrypt", A: s})
+			}
+			nenc := 6
+			if c.Thorough {
+				nenc = 40
+			}
+			for i := 0; i < nenc; i++ {
+				g.add(opJ{Op: "encrypt", A: app(lit([]byte{byte(r.Intn(2))}), bgen(seed(), ksz-1))})
+			}
+			// EM construction: every crypto.Hash code, right and wrong digest length
+			for h := 0; h <= 21; h++ {
+				if hh, ok := hashOf[h]; ok {
+					g.add(opJ{Op: "em", Hash: h, A: bgen(seed(), hh.Size())})
+					g.add(opJ{Op: "em", Hash: h, A: bgen(seed(), hh.Size()+1-2*r.Intn(2))})
+				} else {
+					g.add(opJ{Op: "em", Hash: h, A: bgen(seed(), 20)})
 				}
-			} else if si < 2 || h == 0 {
-				pubCase(c, input{Kind: "pub", Op: "em", Key: pk, Hash: h, A: vh.Hex(r.Bytes(20))})
 			}
-		}
-		// hash 0 (raw DigestInfo supplied by the caller): boundary lengths k-11, k-10
-		for _, l := range []int{0, 1, ksz - 12, ksz - 11, ksz - 10, ksz} {
-			pubCase(c, input{Kind: "pub", Op: "em", Key: pk, Hash: 0, A: vh.Hex(r.Bytes(l))})
-		}
-		// verification: genuine, and every kind of change
-		hs := []int{5, 3, 0, 8}
-		if si%2 == 1 {
-			hs = []int{7, 2, 9, 4, 6}
-		}
-		for _, h := range hs {
-			d := digest(r, h)
-			sig, err := zrsa.SignPKCS1v15(nil, priv, crypto.Hash(h), d)
-			if err != nil {
-				// message too long for the key: verification must fail as well
-				pubCase(c, input{Kind: "pub", Op: "verify15", Key: pk, Hash: h, A: vh.Hex(d), B: vh.Hex(r.Bytes(ksz))})
-				continue
+			// hash 0 (raw DigestInfo supplied by the caller): boundary lengths k-11, k-10
+			for _, l := range []int{0, 1, ksz - 12, ksz - 11, ksz - 10, ksz} {
+				g.add(opJ{Op: "em", Hash: 0, A: bgen(seed(), l)})
 			}
-			v := func(h int, d, s []byte) {
-				pubCase(c, input{Kind: "pub", Op: "verify15", Key: pk, Hash: h, A: vh.Hex(d), B: vh.Hex(s)})
+			g.flush()
+			// verification: genuine, and every kind of change
+			hs := []int{5, 3, 0, 8}
+			if si%2 == 1 {
+				hs = []int{7, 2, 9, 4, 6}
 			}
-			v(h, d, sig)
-			s2 := append([]byte{}, sig...)
-			s2[r.Intn(len(s2))] ^= 1 << uint(r.Intn(8))
-			v(h, d, s2)
-			v(h, d, sig[1:])
-			v(h, d, append([]byte{0}, sig...))
-			v(h, d, append(append([]byte{}, sig...), 0))
-			// s + n: same residue, not below the modulus
-			sn := new(big.Int).Add(new(big.Int).SetBytes(sig), n)
-			if len(sn.Bytes()) == ksz {
-				v(h, d, sn.Bytes())
-			}
-			if len(d) > 0 {
-				d2 := append([]byte{}, d...)
-				d2[r.Intn(len(d2))] ^= 0x80
-				v(h, d2, sig)
-				v(h, d[1:], sig)
-			}
-			v((h+1)%10, d, sig)
-			v(h, d, make([]byte, ksz))
-			// a signature whose EM differs only in the padding (one ff replaced): built with the private key
-			em, _ := zrsa.VerifConstructEM(&priv.PublicKey, crypto.Hash(h), d)
-			for _, pos := range []int{0, 1, 2, 5, len(em) - len(d) - 1} {
-				if pos >= 0 && pos < len(em) {
-					em2 := append([]byte{}, em...)
-					em2[pos] ^= 0x01
-					if forged, err := zrsa.VerifDecrypt(priv, em2, false); err == nil {
-						v(h, d, forged)
+			for _, h := range hs {
+				g := newPubGroup(c, k)
+				var dspec *spec
+				if h == 0 {
+					dspec = bgen(seed(), r.Intn(40))
+				} else {
+					dspec = bgen(seed(), crypto.Hash(h).Size())
+				}
+				d := dspec.eval(nil)
+				sig, err := zrsa.SignPKCS1v15(nil, priv, crypto.Hash(h), d)
+				if err != nil {
+					// message too long for the key: verification must fail as well
+					g.add(opJ{Op: "verify15", Hash: h, A: dspec, B: bgen(seed(), ksz)})
+					g.flush()
+					continue
+				}
+				sg := g.lit(sig)
+				v := func(h int, d, s *spec) { g.add(opJ{Op: "verify15", Hash: h, A: d, B: s}) }
+				v(h, dspec, sg)
+				nflip := 6
+				if c.Thorough {
+					nflip = 30
+				}
+				for i := 0; i < nflip; i++ {
+					v(h, dspec, sg.xor(r.Intn(len(sig)), 1<<uint(r.Intn(8))))
+				}
+				v(h, dspec, sg.drop(1))
+				v(h, dspec, app(lit([]byte{0}), sg))
+				v(h, dspec, app(sg, lit([]byte{0})))
+				// s + n: same residue, not below the modulus
+				sn := new(big.Int).Add(new(big.Int).SetBytes(sig), n)
+				if len(sn.Bytes()) == ksz {
+					v(h, dspec, g.lit(sn.Bytes()))
+				}
+				if len(d) > 0 {
+					v(h, dspec.xor(r.Intn(len(d)), 0x80), sg)
+					v(h, dspec.drop(1), sg)
+					v(h, app(dspec, lit([]byte{0})), sg)
+				}
+				for _, h2 := range []int{(h + 1) % 10, 0, 5, 11, 20} {
+					if h2 != h {
+						v(h2, dspec, sg)
 					}
 				}
-			}
-		}
-		// PKCS #1 v1.5 encryption with a given random stream (zero bytes force re-reads)
-		for i := 0; i < 3; i++ {
-			msg := r.Bytes(r.Intn(ksz - 10))
-			if i == 2 {
-				msg = r.Bytes(ksz - 11 + r.Intn(2))
-			}
-			stream := r.Bytes(ksz + 20)
-			for j := 0; j < 12; j++ {
-				stream[r.Intn(len(stream))] = 0
-			}
-			stream[ksz-len(msg)-3+r.Intn(3)] = 0x42 // re-read byte that xors to zero
-			if i == 1 {
-				stream = stream[:ksz-len(msg)-3+r.Intn(3)]
-				if len(stream) > 0 {
-					stream[len(stream)-1] = 0
+				v(h, dspec, lit(make([]byte, ksz)))
+				v(h, dspec, bgen(seed(), ksz))
+				// signatures whose EM differs from the genuine one in a single byte (built with the private key)
+				em, _ := zrsa.VerifConstructEM(&priv.PublicKey, crypto.Hash(h), d)
+				for _, pos := range []int{0, 1, 2, 5, len(em) - len(d) - 1, len(em) - len(d) - 2, len(em) - 1} {
+					if pos >= 0 && pos < len(em) {
+						em2 := append([]byte{}, em...)
+						em2[pos] ^= 0x01
+						if forged, err := zrsa.VerifDecrypt(priv, em2, false); err == nil {
+							v(h, dspec, g.lit(forged))
+						}
+					}
 				}
+				g.flush()
 			}
-			pubCase(c, input{Kind: "pub", Op: "encrypt15", Key: pk, A: vh.Hex(stream), B: vh.Hex(msg)})
+			// PKCS #1 v1.5 encryption with a given random stream (zero bytes force re-reads)
+			g = newPubGroup(c, k)
+			for i := 0; i < 4; i++ {
+				mlen := r.Intn(ksz - 10)
+				if i == 2 {
+					mlen = ksz - 11 + r.Intn(2)
+				}
+				stream := bgen(seed(), ksz+20)
+				for j := 0; j < 8; j++ {
+					pos := r.Intn(ksz + 20)
+					stream = stream.xor(pos, int(stream.eval(nil)[pos])) // zero byte
+				}
+				pos := ksz - mlen - 3 + r.Intn(3)
+				if pos >= 0 {
+					stream = stream.xor(pos, int(stream.eval(nil)[pos])^0x42) // re-read byte that xors to zero
+				}
+				if i == 1 { // stream runs dry
+					short := r.Bytes(max(ksz-mlen-3+r.Intn(3), 1))
+					short[len(short)-1] = 0
+					stream = lit(short)
+				}
+				g.add(opJ{Op: "encrypt15", A: stream, B: bgen(seed(), mlen)})
+			}
+			g.flush()
 		}
 	}
 	// malformed keys: every public operation
-	d := r.Bytes(32)
 	for _, mk := range malformedKeys(r, good) {
 		ksz := 0
 		if n := sBig(mk.N); n != nil {
 			ksz = (n.BitLen() + 7) / 8
 		}
-		pubCase(c, input{Kind: "pub", Op: "checkpub", Key: mk})
-		pubCase(c, input{Kind: "pub", Op: "verify15", Key: mk, Hash: 5, A: vh.Hex(d), B: vh.Hex(make([]byte, ksz))})
-		pubCase(c, input{Kind: "pub", Op: "verify15", Key: mk, Hash: 5, A: vh.Hex(d), B: vh.Hex(append(make([]byte, ksz-min(ksz, 1)), make([]byte, min(ksz, 1), 1)...))})
-		sg := r.Bytes(ksz)
-		if ksz > 0 {
-			sg[0] = 0
-		}
-		pubCase(c, input{Kind: "pub", Op: "verify15", Key: mk, Hash: 0, A: vh.Hex(d[:3]), B: vh.Hex(sg)})
-		pubCase(c, input{Kind: "pub", Op: "encrypt", Key: mk, A: vh.Hex(sg)})
-		pubCase(c, input{Kind: "pub", Op: "encrypt", Key: mk, A: ""})
-		pubCase(c, input{Kind: "pub", Op: "em", Key: mk, Hash: 5, A: vh.Hex(d)})
-		pubCase(c, input{Kind: "pub", Op: "encrypt15", Key: mk, A: vh.Hex(r.Bytes(80)), B: "01"})
+		g := newPubGroup(c, mk)
+		d := bgen(seed(), 32)
+		g.add(opJ{Op: "checkpub"})
+		g.add(opJ{Op: "verify15", Hash: 5, A: d, B: lit(make([]byte, ksz))})
+		g.add(opJ{Op: "verify15", Hash: 5, A: d, B: app(lit(make([]byte, max(ksz-1, 0))), lit(make([]byte, min(ksz, 1), 1)).xor(0, 1))})
+		sg := app(lit(make([]byte, min(ksz, 1))), bgen(seed(), max(ksz-1, 0)))
+		g.add(opJ{Op: "verify15", Hash: 0, A: bgen(seed(), 3), B: sg})
+		g.add(opJ{Op: "verify15", Hash: 20, A: d, B: sg})
+		g.add(opJ{Op: "encrypt", A: sg})
+		g.add(opJ{Op: "encrypt", A: lit(nil)})
+		g.add(opJ{Op: "em", Hash: 5, A: d})
+		g.add(opJ{Op: "encrypt15", A: bgen(seed(), 80), B: lit([]byte{1})})
+		g.flush()
 	}
 }
 
@@ -685,91 +874,127 @@ func bigRand(r *rng, n *big.Int) *big.Int {
 
 func genPriv(c *vh.Ctx) {
 	r := &rng{s: c.U64()}
+	seed := func() uint64 { return r.U64() & 0x7fffffff }
 	type shape struct {
 		bits, np   int
 		e          string
 		precompute bool
 	}
-	// the model evaluates modular exponentiation on binary Z: a 512-bit private operation takes seconds
-	shapes := []shape{{512, 2, "65537", true}, {512, 2, "3", false}, {384, 3, "65537", true}, {520, 2, "r40", true}}
+	shapes := []shape{{512, 2, "65537", true}, {1024, 2, "3", false}, {768, 3, "65537", true}, {520, 2, "r40", true}, {1024, 2, "65537", true},
+		{1024, 2, "big", true}, {1024, 4, "r31", false}}
 	if c.Thorough {
-		shapes = append(shapes, shape{768, 2, "65537", true}, shape{768, 2, "big", false}, shape{1024, 2, "65537", true}, shape{640, 4, "3", true},
-			shape{1024, 2, "3", false}, shape{512, 2, "huge", true})
+		shapes = append(shapes, shape{768, 2, "65537", true}, shape{768, 2, "big", false}, shape{2048, 2, "65537", true}, shape{640, 4, "3", true},
+			shape{2048, 2, "3", false}, shape{512, 2, "huge", true}, shape{1536, 5, "65537", true}, shape{3072, 2, "65537", true})
 	}
-	for si, sh := range shapes {
-		k := genKey(r, sh.bits, sh.np, sh.e)
-		k.Precompute = sh.precompute
-		n := sBig(k.N)
-		ksz := (n.BitLen() + 7) / 8
-		pubk := k.pub()
-		privCase(c, input{Kind: "priv", Op: "precompute", Key: k})
-		ct := bigRand(r, n).Bytes()
-		privCase(c, input{Kind: "priv", Op: "decrypt", Key: k, A: vh.Hex(ct), Check: si%2 == 0})
-		privCase(c, input{Kind: "priv", Op: "decrypt", Key: k, A: vh.Hex(n.Bytes()), Check: true})
-		privCase(c, input{Kind: "priv", Op: "sign15", Key: k, Hash: 5, A: vh.Hex(r.Bytes(32))})
-		privCase(c, input{Kind: "priv", Op: "sign15", Key: k, Hash: 7, A: vh.Hex(r.Bytes(64))}) // too long for <= 752-bit keys
-		privCase(c, input{Kind: "priv", Op: "sign15", Key: k, Hash: 5, A: vh.Hex(r.Bytes(31))})
-		// DecryptPKCS1v15: genuine ciphertext, and crafted encoded messages
-		msg := r.Bytes(1 + r.Intn(ksz-12))
-		good, err := zrsa.EncryptPKCS1v15(r, pubk, msg)
-		if err != nil {
-			panic(err)
-		}
-		privCase(c, input{Kind: "priv", Op: "decrypt15", Key: k, A: vh.Hex(good)})
-		em := make([]byte, ksz)
-		em[1] = 2
-		for i := 2; i < ksz; i++ {
-			em[i] = byte(1 + r.Intn(255))
-		}
-		var crafted [][]byte
-		switch si % 4 {
-		case 0: // zero terminator at index 9 (PS one byte short) and at 10 (shortest legal PS)
-			e1 := append([]byte{}, em...)
-			e1[9] = 0
-			e2 := append([]byte{}, em...)
-			e2[10] = 0
-			crafted = [][]byte{e1, e2}
-		case 1: // no terminator at all; terminator last
-			e2 := append([]byte{}, em...)
-			e2[ksz-1] = 0
-			crafted = [][]byte{em, e2}
-		case 2: // wrong block type
-			e1 := append([]byte{}, em...)
-			e1[1] = 1
-			e1[20] = 0
-			crafted = [][]byte{e1}
-		case 3: // two terminators: the first one counts
-			e1 := append([]byte{}, em...)
-			e1[12], e1[30] = 0, 0
-			crafted = [][]byte{e1}
-		}
-		for _, e := range crafted {
-			ctx, err := zrsa.VerifEncrypt(pubk, e)
-			if err != nil {
-				panic(err)
+	reps := 1
+	if c.Thorough {
+		reps = 3
+	}
+	for rep := 0; rep < reps; rep++ {
+		for si, sh := range shapes {
+			k := genKey(r, sh.bits, sh.np, sh.e)
+			k.Precompute = sh.precompute
+			n := sBig(k.N)
+			ksz := (n.BitLen() + 7) / 8
+			pubk := k.pub()
+			kraw := k
+			kraw.Precompute = false
+			g := newPrivGroup(c, kraw)
+			g.add(opJ{Op: "precompute"})
+			g.flush()
+			g = newPrivGroup(c, k)
+			g.add(opJ{Op: "precompute"})
+			ndec := 4
+			if c.Thorough {
+				ndec = 12
 			}
-			privCase(c, input{Kind: "priv", Op: "decrypt15", Key: k, A: vh.Hex(ctx)})
-		}
-		if si == 0 {
-			// faulty precomputed values: the re-encryption check turns a wrong CRT result into an error
-			p := k.priv()
-			bad := k
-			bad.Precompute = false
-			bad.Dp, bad.Dq = bigS(p.Precomputed.Dp), bigS(p.Precomputed.Dq)
-			bad.Qinv = new(big.Int).Add(p.Precomputed.Qinv, one).String()
-			privCase(c, input{Kind: "priv", Op: "decrypt", Key: bad, A: vh.Hex(ct), Check: true})
-			privCase(c, input{Kind: "priv", Op: "decrypt", Key: bad, A: vh.Hex(ct), Check: false})
-			// malformed public part of a private key: error before anything is dereferenced
-			for _, mk := range []keyJ{{N: "", E: k.E}, {N: k.N, E: ""}, {N: k.N, E: "-3"}, {N: k.N, E: "1"}} {
-				mk.D, mk.Primes = k.D, k.Primes
-				privCase(c, input{Kind: "priv", Op: "sign15", Key: mk, Hash: 5, A: vh.Hex(r.Bytes(32))})
-				privCase(c, input{Kind: "priv", Op: "decrypt15", Key: mk, A: vh.Hex(good)})
+			for i := 0; i < ndec; i++ {
+				g.add(opJ{Op: "decrypt", A: app(lit([]byte{byte(r.Intn(2))}), bgen(seed(), ksz-1)), Check: i%2 == 0})
+			}
+			g.add(opJ{Op: "decrypt", A: g.lit(n.Bytes()), Check: true})
+			g.add(opJ{Op: "decrypt", A: g.lit(new(big.Int).Sub(n, one).Bytes()), Check: true})
+			g.add(opJ{Op: "decrypt", A: lit(nil), Check: true})
+			g.add(opJ{Op: "decrypt", A: lit([]byte{1}), Check: false})
+			// a ciphertext that shares a factor with n
+			g.add(opJ{Op: "decrypt", A: g.lit(new(big.Int).Mul(sBig(k.Primes[0]), big.NewInt(int64(2+r.Intn(1000)))).Bytes()), Check: true})
+			for _, h := range []int{5, 7, 3, 0, 8} {
+				g.add(opJ{Op: "sign15", Hash: h, A: bgen(seed(), crypto.Hash(max(h, 3)).Size())}) // SHA-512 is too long for <= 752-bit keys
+			}
+			g.add(opJ{Op: "sign15", Hash: 5, A: bgen(seed(), 31)})
+			g.add(opJ{Op: "sign15", Hash: 11, A: bgen(seed(), 32)})
+			g.add(opJ{Op: "sign15", Hash: 0, A: bgen(seed(), ksz-11)})
+			g.add(opJ{Op: "sign15", Hash: 0, A: bgen(seed(), ksz-10)})
+			// DecryptPKCS1v15: genuine ciphertexts, changed ones, and crafted encoded messages
+			for i := 0; i < 2; i++ {
+				msg := r.Bytes(r.Intn(ksz - 11))
+				good, err := zrsa.EncryptPKCS1v15(r, pubk, msg)
+				if err != nil {
+					panic(err)
+				}
+				gs := g.lit(good)
+				g.add(opJ{Op: "decrypt15", A: gs})
+				g.add(opJ{Op: "decrypt15", A: gs.xor(r.Intn(ksz), 1<<uint(r.Intn(8)))})
+				g.add(opJ{Op: "decrypt15", A: gs.drop(1)})
+			}
+			em := make([]byte, ksz)
+			em[1] = 2
+			for i := 2; i < ksz; i++ {
+				em[i] = byte(1 + r.Intn(255))
+			}
+			mut := func(f func(e []byte)) []byte { e := append([]byte{}, em...); f(e); return e }
+			crafted := [][]byte{
+				mut(func(e []byte) { e[9] = 0 }),     // PS one byte short
+				mut(func(e []byte) { e[10] = 0 }),    // shortest legal PS
+				em,                                   // no terminator
+				mut(func(e []byte) { e[ksz-1] = 0 }), // empty message
+				mut(func(e []byte) { e[1] = 1; e[20] = 0 }), // wrong block type
+				mut(func(e []byte) { e[12], e[30] = 0, 0 }), // two terminators: the first one counts
+				mut(func(e []byte) { e[2] = 0 }),            // terminator right after the block type
+				mut(func(e []byte) { e[0] = 1; e[15] = 0 }), // first byte not zero (only if below n)
+			}
+			for _, e := range crafted {
+				ctx, err := zrsa.VerifEncrypt(pubk, e)
+				if err != nil {
+					continue
+				}
+				g.add(opJ{Op: "decrypt15", A: g.lit(ctx)})
+			}
+			g.flush()
+			if si == 0 {
+				// faulty precomputed values: the re-encryption check turns a wrong CRT result into an error
+				p := k.priv()
+				bad := k
+				bad.Precompute = false
+				bad.Dp, bad.Dq = bigS(p.Precomputed.Dp), bigS(p.Precomputed.Dq)
+				bad.Qinv = new(big.Int).Add(p.Precomputed.Qinv, one).String()
+				g := newPrivGroup(c, bad)
+				ct := bgen(seed(), ksz-1)
+				g.add(opJ{Op: "decrypt", A: ct, Check: true})
+				g.add(opJ{Op: "decrypt", A: ct, Check: false})
+				g.add(opJ{Op: "sign15", Hash: 5, A: bgen(seed(), 32)})
+				g.flush()
+				bad.Qinv = bigS(p.Precomputed.Qinv)
+				bad.Dp = new(big.Int).Add(p.Precomputed.Dp, one).String()
+				g = newPrivGroup(c, bad)
+				g.add(opJ{Op: "decrypt", A: ct, Check: true})
+				g.add(opJ{Op: "decrypt", A: ct, Check: false})
+				g.flush()
+				// malformed public part of a private key: error before anything is dereferenced
+				for _, mk := range []keyJ{{N: "", E: k.E}, {N: k.N, E: ""}, {N: k.N, E: "-3"}, {N: k.N, E: "1"}, {N: "-" + k.N, E: k.E}, {N: "0", E: k.E}} {
+					mk.D, mk.Primes = k.D, k.Primes
+					g := newPrivGroup(c, mk)
+					g.add(opJ{Op: "sign15", Hash: 5, A: bgen(seed(), 32)})
+					g.add(opJ{Op: "decrypt15", A: bgen(seed(), ksz)})
+					g.flush()
+				}
 			}
 		}
 	}
 	// Precompute on degenerate prime lists
 	for _, ps := range [][]string{{}, {"7"}, {"1", "7"}, {"7", "1"}, {"0", "1"}, {"0", "5"}, {"6", "9"}, {"-7", "5"}, {"7", "-5"}, {"11", "13", "17"}} {
-		privCase(c, input{Kind: "priv", Op: "precompute", Key: keyJ{N: "77", E: "7", D: "43", Primes: ps}})
+		g := newPrivGroup(c, keyJ{N: "77", E: "7", D: "43", Primes: ps})
+		g.add(opJ{Op: "precompute"})
+		g.flush()
 	}
 }
 
@@ -840,6 +1065,11 @@ var refPrefix = map[crypto.Hash][]byte{
 
 func runBattery(c *vh.Ctx, k keyJ, seed uint64) {
 	b := &battery{c: c, k: k, seed: seed}
+	defer func() {
+		if rec := recover(); rec != nil {
+			b.fail("operation-panics", fmt.Sprintf("an RSA operation on a well-formed key panics: %v", rec))
+		}
+	}()
 	r := &rng{s: seed}
 	zp := k.priv()
 	sp := k.std()
@@ -858,6 +1088,9 @@ func runBattery(c *vh.Ctx, k keyJ, seed uint64) {
 		ct := bigRand(r, n)
 		if i == 1 {
 			ct = new(big.Int).Sub(n, one)
+		}
+		if i == 3 {
+			ct = big.NewInt(int64(r.Intn(2))) // result has leading zero bytes: left padding
 		}
 		if i == 2 {
 			ct = new(big.Int).Mul(sBig(k.Primes[0]), big.NewInt(int64(1+r.Intn(1000)))) // not coprime to n
@@ -888,11 +1121,17 @@ func runBattery(c *vh.Ctx, k keyJ, seed uint64) {
 	}
 
 	// 2. PKCS #1 v1.5 signatures
-	hashes := []crypto.Hash{crypto.SHA256, crypto.SHA1, crypto.SHA512, crypto.MD5SHA1, crypto.SHA384, 0}
-	for _, h := range hashes {
+	hashes := []crypto.Hash{crypto.SHA256, crypto.SHA1, crypto.SHA512, crypto.MD5SHA1, crypto.SHA384, 0, 0, 0, crypto.SHA224, crypto.MD5}
+	for hi, h := range hashes {
 		var d []byte
 		if h == 0 {
 			d = r.Bytes(r.Intn(30))
+			if hi == 6 {
+				d = r.Bytes(ksz - 11) // longest message that fits
+			}
+			if hi == 7 {
+				d = r.Bytes(ksz - 10) // one byte too long
+			}
 		} else {
 			d = r.Bytes(h.Size())
 		}
@@ -973,6 +1212,19 @@ func runBattery(c *vh.Ctx, k keyJ, seed uint64) {
 					b.fail("sign15-verify15", fmt.Sprintf("own PKCS#1 v1.5 signature (hash=%d) does not verify", t.h))
 				}
 			}()
+		}
+	}
+
+	// a fault in the CRT values must never leak a wrong signature: the re-encryption check turns it into an error
+	if len(zp.Primes) == 2 && zp.Precomputed.Qinv != nil {
+		faulty := *zp
+		faulty.Precomputed.Qinv = new(big.Int).Add(zp.Precomputed.Qinv, one)
+		d := r.Bytes(32)
+		if sig, err := zrsa.SignPKCS1v15(nil, &faulty, crypto.SHA256, d); err == nil && !refVerify15(n, e, crypto.SHA256, d, sig) {
+			b.fail("sign15-faulty-crt", fmt.Sprintf("SignPKCS1v15 with a faulty Qinv returns a signature that does not verify: %x", sig))
+		}
+		if sig, err := zrsa.SignPSS(r, &faulty, crypto.SHA256, d, nil); err == nil && zrsa.VerifyPSS(&zp.PublicKey, crypto.SHA256, d, sig, nil) != nil {
+			b.fail("signpss-faulty-crt", fmt.Sprintf("SignPSS with a faulty Qinv returns a signature that does not verify: %x", sig))
 		}
 	}
 
@@ -1069,6 +1321,21 @@ func runBattery(c *vh.Ctx, k keyJ, seed uint64) {
 				cts = append(cts, c2)
 			}
 			cts = append(cts, zc[1:], make([]byte, ksz), n.Bytes())
+			// crafted encoded messages through the public operation: padding string of 7 and 8 bytes,
+			// no terminator, wrong block type, first byte not zero
+			em := make([]byte, ksz)
+			em[1] = 2
+			for j := 2; j < ksz; j++ {
+				em[j] = byte(1 + r.Intn(255))
+			}
+			for _, f := range []func(e []byte){func(e []byte) { e[9] = 0 }, func(e []byte) { e[10] = 0 }, func(e []byte) {}, func(e []byte) { e[1] = 1; e[20] = 0 },
+				func(e []byte) { e[2] = 0 }, func(e []byte) { e[ksz-1] = 0 }, func(e []byte) { e[0] = 1; e[12] = 0 }, func(e []byte) { e[12], e[13] = 0, 0 }} {
+				e := append([]byte{}, em...)
+				f(e)
+				if ct, err := zrsa.VerifEncrypt(&zp.PublicKey, e); err == nil {
+					cts = append(cts, ct)
+				}
+			}
 			for j, ct := range cts {
 				zm, zerr := zrsa.DecryptPKCS1v15(nil, zp, ct)
 				zm2, zerr2 := zrsa.DecryptPKCS1v15(nil, zp2, ct)
@@ -1127,6 +1394,13 @@ func runBattery(c *vh.Ctx, k keyJ, seed uint64) {
 		}
 		// crafted encoded messages: first byte non-zero, no 0x01 separator — through the public operation
 		cts = append(cts, zc[1:], make([]byte, ksz))
+		if emv, err := zrsa.VerifDecrypt(zp, zc, false); err == nil {
+			e := append([]byte{}, emv...)
+			e[0] = 1 // first byte not zero
+			if ct, err := zrsa.VerifEncrypt(&zp.PublicKey, e); err == nil {
+				cts = append(cts, ct)
+			}
+		}
 		for j, ct := range cts {
 			for _, lb := range [][]byte{label, append([]byte{1}, label...)} {
 				zm, zerr := zrsa.DecryptOAEP(h.New(), nil, zp, ct, lb)
@@ -1187,6 +1461,15 @@ func malformedBattery(c *vh.Ctx, mk keyJ, good keyJ) {
 			op{fmt.Sprintf("DecryptOAEP#%d", i), func() error { _, err := zrsa.DecryptOAEP(sha256.New(), nil, priv, s, nil); return err }},
 			op{fmt.Sprintf("DecryptPKCS1v15SessionKey#%d", i), func() error { return zrsa.DecryptPKCS1v15SessionKey(nil, priv, s, make([]byte, 4)) }},
 		)
+	}
+	if ksz >= 11+19+32 {
+		// with E = 1 (or any exponent that checkPub must refuse) the encoded message itself is a "signature"
+		em := append([]byte{0, 1}, bytes.Repeat([]byte{0xff}, ksz-3-19-32)...)
+		em = append(append(append(em, 0), refPrefix[crypto.SHA256]...), d...)
+		ops = append(ops, op{"VerifyPKCS1v15-em-as-signature", func() error { return zrsa.VerifyPKCS1v15(pub, crypto.SHA256, d, em) }})
+	}
+	if pub.N == nil || pub.E == nil || pub.E.Cmp(big.NewInt(2)) < 0 {
+		ops = append(ops, op{"checkPub", func() error { return zrsa.VerifCheckPub(pub) }})
 	}
 	ops = append(ops,
 		op{"EncryptPKCS1v15", func() error { _, err := zrsa.EncryptPKCS1v15(&rng{s: 1}, pub, []byte{1}); return err }},
@@ -1267,10 +1550,20 @@ func replay(c *vh.Ctx, raw json.RawMessage) {
 	switch in.Kind {
 	case "big":
 		bigCase(c, in)
-	case "pub":
-		pubCase(c, in)
-	case "priv":
-		privCase(c, in)
+	case "pubgroup", "privgroup":
+		var g *group
+		if in.Kind == "pubgroup" {
+			g = newPubGroup(c, in.Key)
+		} else {
+			g = newPrivGroup(c, in.Key)
+		}
+		for _, e := range in.Env {
+			g.lit(vh.UnHex(e))
+		}
+		for _, op := range in.Ops {
+			g.add(op)
+		}
+		g.flush()
 	case "oracle":
 		runBattery(c, in.Key, in.Seed)
 	case "malformed":
@@ -1282,4 +1575,3 @@ func replay(c *vh.Ctx, raw json.RawMessage) {
 }
 
 func main() { vh.Main("C23", gen, replay) }
-
